@@ -8,6 +8,8 @@ tempfile.TemporaryFile, the real parsers on real bytes) on concrete inputs."""
 from .stubs import PyBytesIO, SizedPart
 
 
+from vf.engine import unmodelled  # noqa: E402
+
 class SizeIO(PyBytesIO):
     """PyBytesIO whose read() also works when the parts written are opaque
     SizedParts: read(n) returns one SizedPart covering the bytes a file would
@@ -53,6 +55,7 @@ def install_size_io():
     body_mixin.TemporaryFile = _spool
 
 
+@unmodelled
 class ChunkedSymStream:
     """wsgi.input carrying a chunked transfer coding.  `segments` alternates
     framing (real bytes: size lines, CRLFs, trailer) and chunk data (an int =
@@ -104,6 +107,7 @@ class ChunkedSymStream:
         return SizedPart(at, m)
 
 
+@unmodelled
 class OpaqueText:
     """decoded value of an opaque data section: only its length is known"""
     __slots__ = ("n",)
@@ -115,6 +119,7 @@ class OpaqueText:
         return self.n
 
 
+@unmodelled
 class OpaqueBytes:
     __slots__ = ("n",)
 
@@ -128,6 +133,7 @@ class OpaqueBytes:
         return OpaqueText(self.n)
 
 
+@unmodelled
 class SegSource:
     """The buffered multipart body as FieldStorage sees it (seek/read).
     `segments` alternates literal bytes (boundaries + part headers) and ints
